@@ -126,6 +126,20 @@ def _iroot(n: int, q: int) -> Optional[int]:
     return None
 
 
+def _broadcast_only(idx: Node) -> bool:
+    """index made of full slices, None (newaxis) and Ellipsis only"""
+    items = idx.args if idx.op == "Tuple" else [idx]
+    if not items:
+        return False
+    for a in items:
+        if a.op == "Const" and (a.attr is None or a.attr is Ellipsis):
+            continue
+        if a.op == "Slice" and all(x.op == "Const" and x.attr is None for x in a.args):
+            continue
+        return False
+    return True
+
+
 CAST_FUNCS = {"numpy.float32", "numpy.float64", "numpy.single", "numpy.double", "numpy.asarray",
               "numpy.array", "numpy.copy", "builtins.float", "numpy.asanyarray", "numpy.squeeze",
               "numpy.atleast_1d", "numpy.ascontiguousarray"}
@@ -152,6 +166,11 @@ class PolyFacet:
         # clip(x, -1, 1) in front of arccos / arcsin only guards the domain against rounding
         self.domain_clip_transparent = False
         self.mask_nodes: Dict[int, Node] = {}
+        # path specialisation: value number of a branch condition -> assumed truth value (Phi nodes on such a
+        # condition evaluate to the chosen arm)
+        self.assume: Dict[int, bool] = {}
+        # with gather_transparent: x[m] where x was last stored under the same mask m evaluates to the stored value
+        self.forward_loads = False
 
     def zw(self, mask: Node):
         v = self.g.vn(mask)
@@ -364,7 +383,13 @@ class PolyFacet:
         if op == "Subscript" and self.gather_transparent:
             from ..interp_expr import is_basic_index
             if is_basic_index(n.args[1]) is False:
+                if self.forward_loads:
+                    fw = self._forward(n.args[0], n.args[1])
+                    if fw is not None:
+                        return fw
                 return self.of(n.args[0])
+            if _broadcast_only(n.args[1]):
+                return self.of(n.args[0])       # x[:, None] only adds an axis
             return self.node_atom(n)
         if op == "Scatter":
             base, idx, val = n.args
@@ -374,6 +399,10 @@ class PolyFacet:
                 return Val(b.rat, b.zc | frozenset([self.zw(idx)]))
             return self.node_atom(n)
         if op == "Phi":
+            if self.assume:
+                pol = self._assumed(n.args[0])
+                if pol is not None:
+                    return self.of(n.args[1] if pol else n.args[2])
             a, b = self.of(n.args[1]), self.of(n.args[2])
             if self.equal(a, b):
                 return a
@@ -434,6 +463,33 @@ class PolyFacet:
         if op == "Attr" and n.attr == "T" and self.gather_transparent:
             return self.of(n.args[0])       # transposition does not change per-element algebra
         return self.node_atom(n)
+
+    def _assumed(self, c: Node):
+        pol = True
+        while c.op == "UnaryOp" and c.attr == "Not":
+            c, pol = c.args[0], not pol
+        a = self.assume.get(self.g.vn(c))
+        return None if a is None else (a == pol)
+
+    def _forward(self, arr: Node, mask: Node, depth=0):
+        """value of arr[mask] when arr's current version is a store under the same mask (store-to-load forwarding)"""
+        if depth > 40:
+            return None
+        if arr.op == "Phi":
+            pol = self._assumed(arr.args[0]) if self.assume else None
+            if pol is not None:
+                return self._forward(arr.args[1] if pol else arr.args[2], mask, depth + 1)
+            a, b = self._forward(arr.args[1], mask, depth + 1), self._forward(arr.args[2], mask, depth + 1)
+            if a is not None and b is not None and self.equal(a, b):
+                return a
+            return None
+        if arr.op == "Scatter":
+            base, idx, val = arr.args
+            if not self.g.same(idx, mask):
+                return None
+            # for an augmented store (x[m] *= f) the interpreter records the complete new value old*f
+            return self.of(val)
+        return None
 
     def apply_fn(self, name, av, node=None) -> Val:
         name = {"rad2deg": "degrees", "deg2rad": "radians"}.get(name, name)
